@@ -7,6 +7,7 @@
 //
 //   --mode random --sizes small|large|late --seed S --shard k --n N   (randomised families, silent for all seeds)
 //   --mode adversarial                                           (fixed deterministic set, §6 item 18)
+//   --mode reuse --seed S --shard k --n N                        (several solves on one solver object)
 #include "vfh.h"
 #include <cfloat>
 #include <votca/xtp/davidsonsolver.h>
@@ -79,19 +80,18 @@ static void parse_log(Logger &log, const Cfg &c, long size, Outcome &o) {
   }
 }
 
-template <class Op>
-static Outcome solve_with(const Op &op, const Cfg &c) {
-  Outcome o;
-  Logger log;
-  log.setReportLevel(votca::Log::error);
-  log.setMultithreading(false);  // collect, never print to stdout
-  DavidsonSolver DS(log);
+// all options through the public setters (set_max_search_space(0) restores the solver's default of 5*neigen)
+static void configure(DavidsonSolver &DS, const Cfg &c, bool always_set_space) {
   DS.set_correction(c.corr);
   DS.set_size_update(c.upd);
   DS.set_tolerance(c.tol);
-  if (c.max_space) DS.set_max_search_space(c.max_space);
+  if (c.max_space || always_set_space) DS.set_max_search_space(c.max_space);
   DS.set_iter_max(c.iter_max);
   DS.set_matrix_type(c.ham ? "HAM" : "SYMM");
+}
+template <class Op>
+static Outcome run_on(DavidsonSolver &DS, Logger &log, const Op &op, const Cfg &c) {
+  Outcome o;
   try {
     if (c.guess) DS.solve(op, c.neigen, c.guess);
     else DS.solve(op, c.neigen);
@@ -102,9 +102,19 @@ static Outcome solve_with(const Op &op, const Cfg &c) {
   } catch (const std::exception &e) {
     o.threw = true;
     o.what = e.what();
+    o.info = DS.info();
   }
   parse_log(log, c, op.rows(), o);
   return o;
+}
+template <class Op>
+static Outcome solve_with(const Op &op, const Cfg &c) {
+  Logger log;
+  log.setReportLevel(votca::Log::error);
+  log.setMultithreading(false);  // collect, never print to stdout
+  DavidsonSolver DS(log);
+  configure(DS, c, false);
+  return run_on(DS, log, op, c);
 }
 static Outcome solve(const MatrixXd &M, const Cfg &c) {
   if (c.matfree) {
@@ -347,19 +357,22 @@ static std::string mat_witness(const Mat &m) {
 }
 
 // returns true when the outcome was a judged success
-static bool judge(vfh::Reporter &R0, const Mat &m, const Cfg &c, const Outcome &o, const std::string &replay, const std::string &advkey) {
+static bool judge(vfh::Reporter &R0, const Mat &m, const Cfg &c, const Outcome &o, const std::string &replay, const std::string &advkey, const std::string &keyprefix = "",
+                  const std::string &extra_witness = "") {
   // in a deterministic adversarial family every symptom is reported under the family's own key
   struct Rep {
     vfh::Reporter &R;
     const std::string &adv;
-    void violation(const std::string &key, const std::string &what, const J &w) { if (adv.empty()) R.violation(key, what, w); else R.violation(adv, "[" + key + "] " + what, w); }
+    const std::string &prefix;
+    void violation(const std::string &key, const std::string &what, const J &w) { if (adv.empty()) R.violation(prefix + key, what, w); else R.violation(adv, "[" + key + "] " + what, w); }
     void counter(const std::string &k, long long n = 1) { R.counter(k, n); }
     bool want_sample() const { return R.want_sample(); }
     void sample(const J &j) { R.sample(j); }
-  } R{R0, advkey};
+  } R{R0, advkey, keyprefix};
   auto W = [&]() {
     J w;
     w.raw("matrix", mat_witness(m)).raw("options", cjson(c)).s("replay", replay).i("iterations", o.iters).i("restarts_observed", o.restarts);
+    if (!extra_witness.empty()) w.raw("sequence_on_the_same_solver_object", extra_witness);
     return w;
   };
   const std::string kp = c.ham ? "ham/" : "symm/";
@@ -581,6 +594,95 @@ static void run_random(vfh::Reporter &R, long seed, long shard, long nsolves, bo
   }
 }
 
+// ------------------------------------------------------------------ one solver object, several solves
+// Sequences of 2..4 solves on ONE DavidsonSolver object (as a long-lived caller does), options changed through the
+// setters between the solves. After every solve: the full oracle, and the result must be that of THIS solve: a fresh
+// solver with identical settings must give the identical status, iteration count and eigenvalues.
+static void run_reuse(vfh::Reporter &R, long seed, long shard, long nseq, long only) {
+  for (long si = 0; si < nseq; ++si) {
+    if (only >= 0 && si != only) continue;
+    vfh::Rng r((uint64_t)seed * 1000003ULL + (uint64_t)shard * 7919ULL + (uint64_t)si * 104729ULL + 13);
+    const std::string rps = "c09 --mode reuse --seed " + std::to_string(seed) + " --shard " + std::to_string(shard) + " --only " + std::to_string(si) + "  (asan flavour)";
+    long len = r.range(2, 4);
+    Logger log;
+    log.setReportLevel(votca::Log::error);
+    log.setMultithreading(false);
+    DavidsonSolver DS(log);
+    std::vector<Mat> mats;
+    std::string seqj = "[";
+    long hard = -1;  // index in mats of the densely coupled matrix of this sequence
+    bool had_success = false;
+    for (long k = 0; k < len; ++k) {
+      // kind: 0 easy diagonally dominant, 1 hard matrix with an iteration limit too small to converge,
+      //       2 the same hard matrix with a generous limit, 3 another size / neigen, 4 BSE form (HAM mode)
+      int kind;
+      if (k == 0) kind = r.coin(0.75) ? 0 : 1;
+      else if (k == 1 && had_success) kind = r.coin(0.7) ? 1 : (int)r.range(0, 4);
+      else kind = (int)r.range(0, 4);
+      if (kind == 2 && hard < 0) kind = 1;
+      size_t mi;
+      if (kind == 0 || kind == 3) { mats.push_back(gen_symm(r, kind == 0 ? r.range(8, 120) : r.range(4, 160), 0)); mi = mats.size() - 1; }
+      else if (kind == 1) { if (hard < 0 || r.coin(0.3)) { mats.push_back(gen_symm(r, r.range(40, 140), r.coin() ? 1 : 2)); hard = (long)mats.size() - 1; } mi = (size_t)hard; }
+      else if (kind == 2) mi = (size_t)hard;
+      else { mats.push_back(gen_ham(r, r.range(4, 40))); mi = mats.size() - 1; }
+      const Mat &m = mats[mi];
+      Cfg c = gen_cfg(r, r.range(0, 23), m.n, m.ham);
+      c.matfree = r.coin(0.3);
+      if (kind == 1) { c.iter_max = r.range(1, 2); c.tol = r.coin() ? "lapack" : "strict"; c.tolv = tol_value(c.tol); c.neigen = std::min<long>(std::max<long>(c.neigen, 3), std::max<long>(1, m.n / 6)); }
+      else if (kind == 2) c.iter_max = 200;
+      else if (kind != 4 && c.iter_max < 50) c.iter_max = 50;
+      // keep the basis within the dimension after neigen was raised
+      {
+        long upd = c.upd == "min" ? c.neigen : c.upd == "max" ? 2 * c.neigen : (c.neigen < 20 ? (long)(1.5 * (double)c.neigen) : c.neigen + 10);
+        long hi = std::max(c.neigen, m.n - upd);
+        if ((c.max_space == 0 ? 5 * c.neigen : c.max_space) > hi || c.max_space < 0) c.max_space = r.range(c.neigen, hi);
+      }
+      static const char *KN[] = {"easy_diagonally_dominant", "iteration_limit_too_small", "same_matrix_generous_limit", "other_size", "bse_form"};
+      seqj += std::string(k ? "," : "") + J().i("step", k).s("kind", KN[kind]).raw("matrix", mat_witness(m)).raw("options", cjson(c)).str();
+      std::string seq_now = seqj + "]";
+      vfh::set_case(J().s("replay", rps).raw("sequence", seq_now).str());
+      // reference: a fresh solver with identical settings
+      Outcome f = solve(m.M, c);
+      // the reused object
+      configure(DS, c, true);
+      Outcome o;
+      if (c.matfree) { DenseOp op(m.M); o = run_on(DS, log, op, c); }
+      else o = run_on(DS, log, m.M, c);
+      R.eval("solver_reuse");
+      R.counter(std::string("reuse_step_kind:") + KN[kind]);
+      if (kind == 1) R.counter(f.info != Eigen::Success && !f.threw ? "reuse_forced_nonconvergence_confirmed_by_fresh_solver" : "reuse_forced_nonconvergence_not_reached(step judged as an ordinary solve)");
+      if (k > 0 && had_success && kind == 1 && f.info != Eigen::Success && !f.threw) R.counter("reuse_nonconvergence_after_an_earlier_success");
+      auto W = [&]() {
+        J w;
+        w.s("replay", rps).raw("sequence_on_the_same_solver_object", seq_now).i("step", k)
+            .s("status_reused", o.threw ? "exception: " + o.what : (o.info == Eigen::Success ? "Success" : "NoConvergence/other")).s("status_fresh", f.threw ? "exception: " + f.what : (f.info == Eigen::Success ? "Success" : "NoConvergence/other"))
+            .i("iterations_reused", o.iters).i("iterations_fresh", f.iters);
+        if (o.ev.size()) w.vec("eigenvalues_reused", std::vector<double>(o.ev.data(), o.ev.data() + o.ev.size()));
+        if (f.ev.size()) w.vec("eigenvalues_fresh", std::vector<double>(f.ev.data(), f.ev.data() + f.ev.size()));
+        return w;
+      };
+      // (1) the status and the result belong to THIS solve
+      if (o.threw != f.threw || (!o.threw && o.info != f.info)) {
+        R.violation("reuse/status-not-updated", "status after a solve on a re-used solver object differs from that of a fresh solver with identical settings", W());
+      } else if (!o.threw) {
+        bool same_shape = o.ev.size() == f.ev.size() && o.vec.rows() == f.vec.rows() && o.vec.cols() == f.vec.cols();
+        double dev = same_shape && o.ev.size() ? (o.ev - f.ev).cwiseAbs().maxCoeff() : 0;
+        if (!same_shape || !(dev <= 1e-10 * (1 + m.norm)))
+          R.violation("reuse/result-of-previous-solve-returned", "eigenvalues()/eigenvectors() after a solve on a re-used object are not those a fresh solver returns for this solve", W().d("max_eigenvalue_difference", dev));
+        else if (o.iters != f.iters)
+          R.violation("reuse/options-or-state-carried-over", "a re-used solver needs another number of iterations than a fresh one with identical settings (an option did not take effect or state leaked)", W());
+      }
+      // (2) the full oracle on what the re-used object returned
+      bool js = judge(R, m, c, o, rps, "", "reuse/", seq_now);
+      if (js) had_success = true;
+      uint64_t h = vfh::hmix(m.gen_seed, (uint64_t)k * 977 + (uint64_t)c.neigen * 31 + (uint64_t)c.max_space * 7 + (uint64_t)c.iter_max + (uint64_t)kind * 131071);
+      if (k > 0 && m.n >= 4) R.nontrivial(h);
+      R.counter(js ? "reuse_success" : (o.threw ? "reuse_exception" : "reuse_not_converged"));
+    }
+    R.counter("reuse_sequences");
+  }
+}
+
 // ------------------------------------------------------------------ adversarial, deterministic (§6 item 18)
 // The lowest root lives in a block that is EXACTLY decoupled from the block the
 // unit-vector guesses (smallest diagonal entries) start in.
@@ -760,6 +862,7 @@ int main(int argc, char **argv) {
   LATE_TIGHT_SHARE = A.real("late-tight", LATE_TIGHT_SHARE); LATE_LOOSE_SHARE = A.real("late-loose", LATE_LOOSE_SHARE);
   LATE_SOLVES_PER_MATRIX = A.num("late-solves-per-matrix", LATE_SOLVES_PER_MATRIX);
   if (mode == "adversarial") run_adversarial(R);
+  else if (mode == "reuse") run_reuse(R, A.num("seed", 1), A.num("shard", 0), A.num("n", 20), A.has("only") ? A.num("only", 0) : -1);
   else run_random(R, A.num("seed", 1), A.num("shard", 0), A.num("n", 20), A.str("sizes", "small") == "large", A.has("only") ? A.num("only", 0) : -1, A.str("sizes", "small") == "late");
   R.summary();
   return 0;
